@@ -371,9 +371,28 @@ fn run_bin_states<B: BinApi>(rep: &mut Rep, spec: &BitSpec, budget: usize) {
 }
 
 fn run_darray_states<const S0: bool>(rep: &mut Rep, spec: &BitSpec, budget: usize) {
-    let bits = gen_bits(spec);
+    run_darray_states_bits::<S0>(rep, gen_bits(spec), spec.seed, budget)
+}
+
+/// the same for inputs given as groups of ones (sparse / dense / partial blocks)
+fn run_darray_states_groups<const S0: bool>(rep: &mut Rep, g: &GroupSpec, complement: bool, budget: usize) {
+    let pos = gen_group_positions(g);
+    let n = pos.last().map(|&p| p + 1 + g.tail).unwrap_or(g.tail);
+    let mut bits = vec![false; n];
+    for p in pos {
+        bits[p] = true;
+    }
+    if complement {
+        for b in bits.iter_mut() {
+            *b = !*b;
+        }
+    }
+    run_darray_states_bits::<S0>(rep, bits, g.seed, budget)
+}
+
+fn run_darray_states_bits<const S0: bool>(rep: &mut Rep, bits: Vec<bool>, seed: u64, budget: usize) {
     let m = BitModel::new(bits.clone());
-    let mut rng = Rng::new(spec.seed ^ 0xC04);
+    let mut rng = Rng::new(seed ^ 0xC04);
     let mut states: Vec<(&'static str, DArray<S0>)> = Vec::new();
     let mut add = |rep: &mut Rep, name: &'static str, f: &dyn Fn() -> DArray<S0>| match guard(f) {
         Out::Val(t) => states.push((name, t)),
@@ -746,6 +765,38 @@ pub fn cases_c04(cfg: &Cfg) -> Vec<Case> {
                     "DArray<false>" => run_darray_states::<false>(rep, &spec, budget),
                     "DArray<true>" => run_darray_states::<true>(rep, &spec, budget),
                     _ => run_bitvec_hostile(rep, &spec, budget.min(600)),
+                }));
+            }
+        }
+    }
+    // ---- DArray states over sparse / partial block shapes (the bit specs above only give dense blocks)
+    let shapes: Vec<(&'static str, Vec<Group>, usize)> = vec![
+        ("two ones 100000 apart", vec![Group::Span { count: 2, span: 100_000 }], 0),
+        ("33 ones spanning 70000 (partial sparse block)", vec![Group::Span { count: 33, span: 70_000 }], 5),
+        ("40 ones 70000 apart", vec![Group::Stepped { count: 40, step: 70_000 }], 0),
+        ("sparse block, dense block, partial sparse block", vec![Group::Stepped { count: 1024, step: 65 }, Group::Stepped { count: 1024, step: 1 }, Group::Span { count: 45, span: 66_000 }], 3),
+        ("dense block then 1025th one far away", vec![Group::Stepped { count: 1024, step: 2 }, Group::Span { count: 2, span: 90_000 }], 0),
+    ];
+    for (si, (name, groups, tail)) in shapes.into_iter().enumerate() {
+        if cfg.scale == Scale::Tiny && si > 1 {
+            continue; // interpreters: the two tiny shapes
+        }
+        for s0 in [false, true] {
+            for complement in [false, true] {
+                if complement && (!s0 || cfg.scale == Scale::Tiny) {
+                    continue;
+                }
+                let g = GroupSpec { groups: groups.clone(), lead: si * 3, gap: 7, tail, seed: rng.u64() };
+                let ty = if s0 { "DArray<true>" } else { "DArray<false>" };
+                let class = format!("{}|states|groups:{}|c{}", ty, name, complement as u8);
+                let desc = J::obj().set("family", "DArray states over sparse/partial blocks").set("groups", g.to_json()).set("complement", complement);
+                let b = budget.min(if cfg.scale == Scale::Tiny { 24 } else { 800 });
+                out.push(Case::new(ty, class, desc, 200_000, move |rep: &mut Rep| {
+                    if s0 {
+                        run_darray_states_groups::<true>(rep, &g, complement, b)
+                    } else {
+                        run_darray_states_groups::<false>(rep, &g, complement, b)
+                    }
                 }));
             }
         }
